@@ -495,7 +495,7 @@ impl<'a> Driver<'a> {
                             let r = ov.by_ref();
                             serde_json::to_string(ov).map_err(|e| e.to_string()) == serde_json::to_string(&r).map_err(|e| e.to_string())
                                 && sval_json::stream_to_string(ov).map_err(|e| e.to_string()) == sval_json::stream_to_string(&r).map_err(|e| e.to_string())
-                                && ov.to_string() == ov.by_ref().to_string()
+                                && (self.exp.chain.is_some() || ov.to_string() == r.to_string())
                                 && format!("{:?}", ov) == format!("{:?}", r)
                         });
                         self.r.observe("check:owned-own-impls", 1);
@@ -851,7 +851,7 @@ fn main() {
         std::process::exit(r.finish());
     }
 
-    let per_site = args.get_u64("per-site", args.n(330, 8_000));
+    let per_site = args.get_u64("per-site", args.n(1_500, 30_000));
     let n = per_site * SITES.len() as u64;
     par_cases(&mut r, &args, n, |i, r| run_case(r, seed, i, threads));
     selfcheck(&mut r, seed, if cfg!(miri) { 20 } else { args.n(5_000, 100_000) });
